@@ -1,5 +1,6 @@
 import Model.Dkg
 import Proofs.DkgFlags
+import Proofs.DkgOnce
 
 /-! # C08 — DKG qualification is fair: honest never blamed, bad dealing never accepted
 
@@ -276,6 +277,31 @@ theorem fvss_step_inv (s : St O) (hnd : s.dealer ≠ s.me) (h : FvssInv s) (orig
     · exact h
     · exact h
 
+/-! ### an honest participant is never flagged for a second complaint; delivery order never matters -/
+
+open Proofs.DkgCommute in
+/-- **an honest participant broadcasts its complaint at most once**, whatever it receives, in whatever order,
+    across deliveries and timeouts (a second complaint makes every other honest participant flag it: the defect
+    class F9) -/
+theorem own_complaint_at_most_once (s : St O) (hme : s.me ≠ s.dealer) (evs : List Ev) :
+    cnt (outputs s evs) ≤ 1 := (complaint_at_most_once s hme evs).1
+
+open Proofs.DkgCommute in
+/-- **share and verification vector in either order** (exactly the same state, or disqualified in both) -/
+theorem share_vector_any_order (s : St O) (hme : s.me ≠ s.dealer) (hn : KeysNodup s) (vec sh : Bytes) :
+    Rel (FvssQ.privBody (FvssQ.bcastBody s s.dealer (tagVerifVec :: vec)).1 s.dealer sh).1
+        (FvssQ.bcastBody (FvssQ.privBody s s.dealer sh).1 s.dealer (tagVerifVec :: vec)).1 :=
+  share_vector_commute s hme hn vec sh
+
+open Proofs.DkgCommute in
+/-- **a complaint and the dealer's answer to it in either order** (the defect class F10: an answer that arrives
+    before the complaint is kept and checked) -/
+theorem complaint_answer_any_order (s : St O) (k : Nat) (sc : Option Nat) (hk : k ≠ s.me)
+    (hdq : s.disqualified = false) (hwf : EntriesWF s) :
+    RelP (if (rcOk s k).disqualified then rcOk s k else raOk (rcOk s k) k sc)
+         (if (raOk s k sc).disqualified then raOk s k sc else rcOk (raOk s k sc) k) :=
+  complaint_answer_same s k sc hk hdq hwf
+
 end Props.C08
 
 #print axioms Props.C08.handlers_blame
@@ -289,3 +315,6 @@ end Props.C08
 #print axioms Props.C08.malformed_vector_disqualifies
 #print axioms Props.C08.fvss_keys_sound
 #print axioms Props.C08.fvss_step_inv
+#print axioms Props.C08.own_complaint_at_most_once
+#print axioms Props.C08.share_vector_any_order
+#print axioms Props.C08.complaint_answer_any_order
